@@ -79,6 +79,29 @@ CLAIMED['C19'] = dict(
     note='Numbers are exchanged as bit patterns; Python number <-> pattern is struct (trusted; NaNs as struct reproduces them). '
          'Known findings: bits-zero-fill, fromcoils-wordorder.')
 
+CLAIMED['C03'] = dict(
+    text='Kernel-checked: tcp/rtu/ascii/tls/binary_build_spec (buildPacket = the specified ADU: MBAP with length = PDU + 1, CRC-16 low byte '
+         'first, upper-case hex + LRC + CRLF, bare PDU, {..CRC}), crc_is_spec / lrc_is_spec (table-driven CRC = bit-serial CRC-16/Modbus for '
+         'every byte string; proofs in Props/Checksum.lean), whole_packet_delivers + request_roundtrip_tcp + response_roundtrip (a fresh '
+         'receiver handed the packet delivers exactly the message with its ids), rtu_oracle_exact_req/resp (the RTU length oracle is exact and '
+         'prefix-stable for the data-access classes); known-finding counterexamples (binary escaping, RTU diagnostic reply size).',
+    design='6/C03', technique='Lean 4 proof (framer models vs ADU spec, CRC algebra) + differential correspondence',
+    note='Spec/AduSpec.lean and Spec/ChecksumSpec.lean are transcriptions of the serial-line / MBAP specifications (trusted).')
+CLAIMED['C06'] = dict(
+    text='Kernel-checked: chunking_independent — for each of the TCP, RTU, ASCII and binary receivers and ANY division of a stream of valid '
+         'frames into chunks (every cut set, empty reads included, any number of frames) the deliveries are exactly the messages of the '
+         'frames in order, no exception escapes and the buffer ends empty; proved by induction over the chunk list from two facts per '
+         'framer (a built frame is recognised whatever follows it; every proper prefix of it makes the receiver wait).',
+    design='6/C06', technique='Lean 4 induction over arrival schedules (generic receive loop + per-framer step lemmas) + differential correspondence',
+    note='The framer state is modelled as its buffer (the header dict is recomputed from the buffer head); checked call by call against the real framers on every run.')
+CLAIMED['C07'] = dict(
+    text='Kernel-checked: delivery_justified (over any chunk history every delivery comes from a frame decision on a contiguous window of the '
+         'received bytes) + rtu/tcp/ascii/binary_frame_valid (what such a decision guarantees: matching CRC-16 / consistent MBAP length / hex + '
+         'matching LRC), corrupted_frame_rejected (codeword-level: any error pattern with non-zero CRC register fails the check, CRC field '
+         'included) with corollaries single_bit, odd_weight (1 and 3 bits), burst16, double_bit (frames <= 4095 bytes), lrc_single_byte.',
+    design='6/C07', technique='Lean 4 invariant proof over chunk histories + CRC linearity/residue algebra + differential correspondence',
+    note='Detection theorems are about the check the receiver applies at a frame position; a corrupted stream may still contain another valid window (the oracle in the harness accepts exactly those).')
+
 PENDING_REASON = 'check not built yet in this revision (work in progress; planned per DESIGN.md section 6)'
 
 def main():
